@@ -663,3 +663,36 @@ def rows_in_view_alias(t: T) -> T:
             return x
         return T(x.op, x.name, [rec(a) for a in x.args], {k: rec(v) for k, v in x.kw.items()}, x.node)
     return rec(t)
+
+
+def shape_norm(t: T) -> T:
+    """One spelling for a few shape idioms, so that rules compare what is computed: `X.shape[0]` is `len(X)`; the number of rows of the
+    view's own table is the number of rows in view (`len(self.nodes)` is `len(self._nodes_in_view)`); `X[None]` / `X[None, :]` /
+    `X[np.newaxis]` is `expand_dims(X, axis=0)`; `tile(X, (n, 1))` of a 2-d X is `repeat(X, n, axis=0)` when X has one row (the only
+    case in which the batching code expands an input)."""
+    def is_none(x):
+        return (x.op == "const" and x.name is None) or (x.op == "attr" and x.name == "newaxis")
+
+    def full(x):
+        return (x.op == "slice" and all(a.op == "const" and a.name is None for a in x.args)) or (x.op == "const" and x.name is Ellipsis)
+
+    def rec(x):
+        if not x.args and not x.kw:
+            return x
+        x = T(x.op, x.name, [rec(a) for a in x.args], {k: rec(v) for k, v in x.kw.items()}, x.node)
+        if x.op == "sub" and x.args[0].op == "attr" and x.args[0].name == "shape" and x.args[1].op == "const" and x.args[1].name == 0:
+            return rec(T("call", "len", [x.args[0].args[0]], node=x.node))
+        if x.op == "call" and x.name == "len" and len(x.args) == 1 and x.args[0].op == "attr" and x.args[0].name in ("nodes", "edges") and \
+                x.args[0].args and x.args[0].args[0].op == "param" and x.args[0].args[0].name == "self":
+            return T("call", "len", [T("attr", "_nodes_in_view" if x.args[0].name == "nodes" else "_edges_in_view", [x.args[0].args[0]])], node=x.node)
+        if x.op == "sub" and (is_none(x.args[1]) or (x.args[1].op == "tuple" and len(x.args[1].args) == 2 and is_none(x.args[1].args[0]) and full(x.args[1].args[1]))):
+            return T("mcall", "expand_dims", [T("free", "jnp"), x.args[0]], {"axis": T("const", 0)}, node=x.node)
+        if x.op == "mcall" and x.name == "tile" and len(x.args) >= 3 and x.args[2].op in ("tuple", "list") and len(x.args[2].args) == 2 and \
+                x.args[2].args[1].op == "const" and x.args[2].args[1].name == 1:
+            return T("mcall", "repeat", [x.args[0], x.args[1], x.args[2].args[0]], {"axis": T("const", 0)}, node=x.node)
+        if x.op == "mcall" and x.name == "expand_dims" and len(x.args) == 3 and "axis" not in x.kw:
+            return T("mcall", "expand_dims", x.args[:2], {"axis": x.args[2]}, node=x.node)
+        if x.op == "mcall" and x.name == "repeat" and len(x.args) == 4 and "axis" not in x.kw:
+            return T("mcall", "repeat", x.args[:3], {"axis": x.args[3]}, node=x.node)
+        return x
+    return rec(t)
